@@ -258,10 +258,11 @@ func (s *kState) AdvanceVotingRound() {
 	// Always set the NilVotedRound here,
 	// because we have to assume nobody else has sufficient information to advance.
 	//
-	// It doesn't matter if there was an existing value for NilVotedRound.
-	// If there was one somehow, it would have been out of date.
+	// If an earlier nil-voted round has not been sent to the gossip strategy yet,
+	// this one is queued behind it: each carries the precommits
+	// that justify leaving its own round.
 	vClone := s.Voting.Clone()
-	s.GossipViewManager.NilVotedRound = &vClone
+	s.GossipViewManager.AddNilVotedRound(&vClone)
 
 	s.incrementVotingRound()
 
